@@ -70,7 +70,8 @@ theorem lax_propagates_struct (d : Dialect) (m : Mode) (raw : Bool) (fs : AField
     parseField d m (.struct raw fs) p bs = .ok (.struct (if raw then some consumed else none) vs, rest) := by
   have hd : d.forMode m = d := by unfold Dialect.forMode; simp [hm]
   have ha : (ATy.struct raw fs).isAny = false := rfl
-  simp only [parseField, fieldShell, hb, if_false, ha, hd, hh, hm, Bool.false_and, Bool.false_eq_true, hf]
+  have hu : m.under raw = m := by cases m <;> first | rfl | (cases raw <;> rfl) | cases hm
+  simp only [parseField, fieldShell, hb, if_false, ha, hd, hh, hm, hu, Bool.false_and, Bool.false_eq_true, hf]
 
 /-- slice elements inherit the mode -/
 theorem lax_propagates_seqOf (d : Dialect) (m : Mode) (s : Bool) (e : ATy) (p : FP) (bs : Bytes)
